@@ -280,3 +280,40 @@ def run_case(ctx, index):
 def _with_handle(biom, path):
     with open(path, encoding='utf-8') as fh:
         return biom.parse_table(fh)
+
+
+def stress(ctx):
+    """Scale: a table with more than 2**20 cells and more than 65536 stored
+    values through both writer forms and one reader."""
+    import scipy.sparse as sp
+    r = ctx.rng('stress')
+    rng = np.random.default_rng(r.randrange(2 ** 32))
+    n, m = 1100, 1000
+    M = sp.random(n, m, density=0.07, format='csr', random_state=rng,
+                  data_rvs=lambda k: rng.integers(1, 1000, size=k) / 8.0)
+    M.data[::97] = 1e-9
+    obs = ['o%d' % i for i in range(n)]
+    samp = ['s%d' % j for j in range(m)]
+    t = ctx.biom.Table(M, obs, samp)
+    D = M.toarray()
+    date = datetime.datetime(2021, 1, 1)
+    text = t.to_json('scale', creation_date=date)
+    buf = io.StringIO()
+    t.to_json('scale', direct_io=buf, creation_date=date)
+    d1 = jsonspec.loads_strict(text)
+    d2 = jsonspec.loads_strict(buf.getvalue())
+    desc = {'stress': 'json %dx%d, %d stored' % (n, m, M.nnz)}
+    if d1 != d2:
+        raise Violation('C02/writer-forms-differ', 'scale case; %r' % desc)
+    dec = jsonspec.decode(d1)
+    if dec['obs_ids'] != obs or dec['samp_ids'] != samp or \
+            not snap.bits_equal(dec['D'], D):
+        bad = np.argwhere(dec['D'] != D)
+        raise Violation('C02/document-content', 'scale case: %d cells differ, '
+                        'first %r; %r' % (len(bad), bad[:1].tolist(), desc))
+    t2 = ctx.biom.parse_table(io.StringIO(text))
+    if not snap.bits_equal(t2.matrix_data.toarray(), D):
+        raise Violation('C02/readback-differs/parse_table_handle',
+                        'scale case; %r' % desc)
+    ctx.count('scale_cases')
+    ctx.case(desc, True)
